@@ -95,7 +95,7 @@ def load_known():
     return known, fixed
 
 
-def finish(ctx_list, pid, tier, t0, seed=0):
+def finish(ctx_list, pid, tier, t0, seed=0, extra=None):
     """Write evidence, print verdict lines, return exit code."""
     os.makedirs(os.path.join(EVID, "replay"), exist_ok=True)
     known, _ = load_known()
@@ -186,6 +186,8 @@ def finish(ctx_list, pid, tier, t0, seed=0):
         "wall_s": round(time.time() - t0, 2),
         "violations": len(seen_keys) - n_known,
     }
+    if extra:
+        ev["coverage"].update(extra)
     with open(os.path.join(EVID, "%s.json" % pid), "w") as f:
         json.dump(ev, f, indent=1)
     if rc == 0:
